@@ -47,6 +47,11 @@ impl Watcher {
 	) -> Result<Box<dyn notify::Watcher + Send>, CriticalError> {
 		use notify::{Config, Watcher as _};
 
+		#[cfg(watchexec_verif)]
+		if let Some(factory) = verif::FACTORY.lock().expect("verif factory lock").as_ref() {
+			return factory(self, Box::new(f));
+		}
+
 		match self {
 			Self::Native => {
 				notify::RecommendedWatcher::new(f, Config::default()).map(|w| Box::new(w) as _)
@@ -301,4 +306,22 @@ fn process_event(
 		})?;
 
 	Ok(())
+}
+
+/// Verification hook: lets a harness substitute the notify watcher (compiled only with `--cfg watchexec_verif`).
+#[cfg(watchexec_verif)]
+pub mod verif {
+	use std::sync::Mutex;
+
+	use crate::error::CriticalError;
+
+	/// Builds the watcher for the given kind instead of the real notify backend.
+	pub type Factory = Box<
+		dyn Fn(super::Watcher, Box<dyn notify::EventHandler>) -> Result<Box<dyn notify::Watcher + Send>, CriticalError>
+			+ Send
+			+ Sync,
+	>;
+
+	/// When set, `Watcher::create` defers to this factory.
+	pub static FACTORY: Mutex<Option<Factory>> = Mutex::new(None);
 }
